@@ -31,9 +31,12 @@ pub fn budget(prop: &str, tier: &str, samples: &Samples) -> Budget {
             let n = sc(if thorough { 20_000_000 } else { 1_000_000 });
             Budget { runs: n, exhaustive: 0, images: 0, base_runs: n }
         }
+        #[cfg(feature = "stream")]
         "C07" => {
             let n = sc(if thorough { 60_000_000 } else { 2_000_000 });
-            Budget { runs: n, exhaustive: 0, images: 0, base_runs: n }
+            // + huge-table images (> 0xff00 sections, the three ways of naming the shstrtab)
+            let extra = if thorough { 24 } else { 6 };
+            Budget { runs: n + extra, exhaustive: 0, images: 0, base_runs: n }
         }
         #[cfg(feature = "stream")]
         "C08" => {
@@ -102,8 +105,8 @@ pub fn run_index(
         #[cfg(feature = "stream")]
         "C07" | "C08" => {
             use crate::equiv::*;
-            let sc = if prop == "C08" && r >= b.base_runs {
-                crate::sweep::build_extra_scenario(seed, r - b.base_runs, tier, samples)
+            let sc = if r >= b.base_runs {
+                crate::sweep::build_extra_scenario(prop, seed, r - b.base_runs, tier, samples)
             } else {
                 build_scenario(prop, seed, r, tier, samples)
             };
@@ -239,8 +242,8 @@ pub fn scenario_of(prop: &str, tier: &str, seed: u64, r: u64, samples: &Samples)
     match prop {
         "C06" => Some(crate::noalloc::build_scenario(seed, r, tier, samples).0),
         #[cfg(feature = "stream")]
-        "C07" | "C08" => Some(if prop == "C08" && r >= b.base_runs {
-            crate::sweep::build_extra_scenario(seed, r - b.base_runs, tier, samples)
+        "C07" | "C08" => Some(if r >= b.base_runs {
+            crate::sweep::build_extra_scenario(prop, seed, r - b.base_runs, tier, samples)
         } else {
             crate::equiv::build_scenario(prop, seed, r, tier, samples)
         }),
